@@ -223,6 +223,69 @@ fn for_each_string(alphabet: &[u8], max_len: usize, f: &mut dyn FnMut(&str)) {
     }
 }
 
+/// one token (primitive integer / float / string, or a JSON document) handed to `Deserialize::deserialize`
+/// (place = None) or to `Deserialize::deserialize_in_place` over an existing decimal
+fn de_token(ty: &str, val: &str, place: Option<&mut BigDecimal>) -> Result<BigDecimal, String> {
+    type E = ::serde::de::value::Error;
+    macro_rules! via {
+        ($d:expr) => {{
+            let d = $d;
+            match place {
+                None => BigDecimal::deserialize(d).map_err(|e| e.to_string()),
+                Some(p) => <BigDecimal as Deserialize>::deserialize_in_place(d, p).map(|_| p.clone()).map_err(|e| e.to_string()),
+            }
+        }};
+    }
+    macro_rules! prim {
+        ($t:ty) => {
+            via!(IntoDeserializer::<E>::into_deserializer(val.parse::<$t>().expect("token value")))
+        };
+    }
+    match ty {
+        "u8" => prim!(u8),
+        "u16" => prim!(u16),
+        "u32" => prim!(u32),
+        "u64" => prim!(u64),
+        "u128" => prim!(u128),
+        "i8" => prim!(i8),
+        "i16" => prim!(i16),
+        "i32" => prim!(i32),
+        "i64" => prim!(i64),
+        "i128" => prim!(i128),
+        "f32" => prim!(f32),
+        "f64" => prim!(f64),
+        "str" => via!(IntoDeserializer::<E>::into_deserializer(val)),
+        "json" => {
+            let mut de = serde_json::Deserializer::from_str(val);
+            via!(&mut de)
+        }
+        _ => panic!("unknown token type"),
+    }
+}
+
+/// T3: refilling an existing decimal in place must give exactly what a fresh deserialisation of the token gives
+fn check_in_place(ty: &str, val: &str, place: &Dec) -> Option<Violation> {
+    let case = json!({"kind": "in_place", "type": ty, "value": val, "place": place.show()});
+    let fresh = guard(|| de_token(ty, val, None));
+    let mut slot = bd(place);
+    let refilled = guard(|| de_token(ty, val, Some(&mut slot)));
+    let show_r = |r: &Result<Result<BigDecimal, String>, String>| match r {
+        Ok(Ok(x)) => show(x),
+        Ok(Err(e)) => format!("Err({})", e),
+        Err(p) => format!("panic: {}", p),
+    };
+    let same = match (&fresh, &refilled) {
+        (Ok(Ok(a)), Ok(Ok(b))) => dec(a) == dec(b) && dec(&slot) == dec(a),
+        (Ok(Err(_)), Ok(Err(_))) => true,
+        _ => false,
+    };
+    if same {
+        None
+    } else {
+        Some(Violation::new("serde deserialize_in_place", "differs_from_fresh_deserialize", case, show_r(&fresh), format!("{} (place now {})", show_r(&refilled), show(&slot))).attr("token", ty))
+    }
+}
+
 fn replay(case: &Value) -> Vec<Violation> {
     match case["kind"].as_str().unwrap() {
         "round_trip" => {
@@ -242,6 +305,7 @@ fn replay(case: &Value) -> Vec<Violation> {
                 .into_iter()
                 .collect()
         }
+        "in_place" => check_in_place(case["type"].as_str().unwrap(), case["value"].as_str().unwrap(), &jd(&case["place"])).into_iter().collect(),
         "json" => {
             let e = ENTRIES.into_iter().find(|e| *e == case["entry"].as_str().unwrap()).unwrap();
             check_doc(e, case["doc"].as_str().unwrap()).into_iter().collect()
@@ -615,6 +679,47 @@ fn main() {
                         run.report(v);
                     }
                 }
+            }
+        }
+        t
+    });
+    // T3: histories through `Deserialize::deserialize_in_place` (the entry point serde uses to refill an existing
+    // value): every token kind x values x every kind of previous occupant (scale 0 / positive / negative, zero with
+    // a scale, long); the refilled decimal must be exactly what a fresh deserialisation yields
+    let places: Vec<Dec> = vec![Dec::new(0, 0), Dec::new(7, 0), Dec::new(125, 2), Dec::new(3, -5), Dec::new(0, 4), Dec::new(-7, 30), Dec { n: pow10(45) + 1, s: 20 }, Dec::new(-1, -1)];
+    let mut toks: Vec<(&str, String)> = vec![];
+    macro_rules! int_vals {
+        ($($ty:ty),*) => {$(
+            for v in [<$ty>::MIN, <$ty>::MAX, 0 as $ty, 1 as $ty, 7 as $ty, (0 as $ty).wrapping_sub(1), <$ty>::MAX / 3] {
+                toks.push((stringify!($ty), v.to_string()));
+            }
+        )*};
+    }
+    int_vals!(u8, u16, u32, u64, u128, i8, i16, i32, i64, i128);
+    for v in ["0", "1.5", "-0.1", "1e300", "5e-324", "NaN", "inf"] {
+        toks.push(("f64", v.to_string()));
+        toks.push(("f32", v.to_string()));
+    }
+    for v in ["7", "12.50", "-1e3", "0.000", "1e-40", "abc", ""] {
+        toks.push(("str", v.to_string()));
+    }
+    for v in ["7", "12.50", "-1e3", "0.000", "\"12.50\"", "\"-7e-3\"", "null", "[1]", "18446744073709551616", "1e400"] {
+        toks.push(("json", v.to_string()));
+    }
+    toks.sort();
+    toks.dedup();
+    run.bound("T3_in_place", json!({"tokens": toks.len(), "previous_occupants": places.len()}));
+    run.par("T3 deserialize_in_place over previous occupants", toks.len(), |i| {
+        let mut t = Tally::default();
+        let (ty, val) = (&toks[i].0, &toks[i].1);
+        for pl in places.iter() {
+            t.states += 1;
+            t.transitions += 2;
+            if pl.s != 0 {
+                t.nontrivial += 1;
+            }
+            if let Some(v) = check_in_place(ty, val, pl) {
+                run.report(v);
             }
         }
         t
